@@ -1,4 +1,5 @@
 """C17: a @snark function exposes exactly its arguments and results as public values."""
+import json
 from fractions import Fraction
 
 from hypothesis import given, strategies as st
@@ -30,6 +31,8 @@ def arg_structs():
         st.lists(ch, min_size=0, max_size=3).map(lambda l: ["list", l]),
         st.lists(ch, min_size=1, max_size=3).map(lambda l: ["tuple", l]),
         st.lists(ch, min_size=0, max_size=3).map(lambda l: ["dict", l]),
+        # the same child OBJECT several times in one list ([row] * n): every occurrence is an argument position
+        st.tuples(ch, st.integers(2, 3)).map(lambda t: ["rep", t[0], t[1]]),
     ), max_leaves=6)
 
 
@@ -47,7 +50,27 @@ def build_arg(s):
         return [build_arg(x) for x in s[1]]
     if t == "tuple":
         return tuple(build_arg(x) for x in s[1])
+    if t == "rep":
+        return [build_arg(s[1])] * s[2]
+    if t == "same":
+        raise ValueError("resolved by build_args")
     return {"k%d" % i: build_arg(x) for i, x in enumerate(s[1])}
+
+
+def build_args(structs):
+    """top-level arguments; ["same", j] passes the very object built for argument j a second time"""
+    out = []
+    for s in structs:
+        out.append(out[s[1]] if s[0] == "same" else build_arg(s))
+    return tuple(out)
+
+
+def resolve_same(structs):
+    """structure as the callee sees it (aliases expanded), for the reference semantics"""
+    out = []
+    for s in structs:
+        out.append(out[s[1]] if s[0] == "same" else s)
+    return out
 
 
 def numeric_leaves(s, path=()):
@@ -58,6 +81,9 @@ def numeric_leaves(s, path=()):
     elif t in ("list", "tuple", "dict"):
         for i, x in enumerate(s[1]):
             yield from numeric_leaves(x, path + (("k%d" % i) if t == "dict" else i,))
+    elif t == "rep":
+        for i in range(s[2]):
+            yield from numeric_leaves(s[1], path + (i,))
 
 
 def fetch(args, path):
@@ -109,6 +135,8 @@ def draw_result(draw, leaves, depth=0):
         return ["expr", e, kind]
     if k == 4:
         return ["pass", draw(st.sampled_from(["s", None]))]
+    if k == 5 and draw(st.booleans()):
+        return ["rep", draw_result(draw, leaves, depth + 1), draw(st.integers(2, 3))]      # one result object at several positions
     n = draw(st.integers(1, 3))
     items = [draw_result(draw, leaves, depth + 1) for _ in range(n)]
     return [draw(st.sampled_from(["list", "tuple", "dict"])), items]
@@ -146,6 +174,8 @@ def eval_result(r, args):
         return [eval_result(x, args) for x in r[1]]
     if t == "tuple":
         return tuple(eval_result(x, args) for x in r[1])
+    if t == "rep":
+        return [eval_result(r[1], args)] * r[2]
     return {"r%d" % i: eval_result(x, args) for i, x in enumerate(r[1])}
 
 
@@ -179,8 +209,8 @@ def judge(case):
     rt, rec = ns.rt, ns.rec
     info = {"calls": len(case["calls"])}
     for ci, call in enumerate(case["calls"]):
-        args = tuple(build_arg(s) for s in call["args"])
-        argstruct = ["tuple", call["args"]]
+        args = build_args(call["args"])
+        argstruct = ["tuple", resolve_same(call["args"])]
 
         def body(*a):
             return eval_result(call["result"], a)
@@ -264,7 +294,11 @@ def shard(seed, n_examples):
         calls = []
         for _ in range(draw(st.integers(1, 4))):
             args = draw(st.lists(arg_structs(), min_size=0, max_size=3))
-            leaves = list(numeric_leaves(["tuple", args]))
+            if args and draw(st.integers(0, 3)) == 0:
+                j = draw(st.integers(0, len(args) - 1))
+                if args[j][0] in ("list", "tuple", "dict", "rep"):
+                    args.insert(draw(st.integers(j + 1, len(args))), ["same", j])          # f(v, v)
+            leaves = list(numeric_leaves(["tuple", resolve_same(args)]))
             calls.append({"args": args, "result": draw_result(draw, leaves), "kwargs": draw(st.integers(0, 9)) == 0})
         case = {"p": draw(st.sampled_from(sorted(REAL_FIELDS))), "calls": calls}
         msg, info = judge(case)
@@ -274,6 +308,8 @@ def shard(seed, n_examples):
             labels.append("mixed-types")
         if any(c["kwargs"] for c in calls):
             labels.append("kwargs")
+        if any('"rep"' in json.dumps(c) or '"same"' in json.dumps(c) for c in calls):
+            labels.append("aliased-containers")
         stats.case(case if nt else None, nt, labels)
         if msg:
             raise core.Violation(case, msg, "snark")
